@@ -260,7 +260,7 @@ PROPS["C08"] = dict(
           "that right's key (so differently unless the key is 0)", functions=H),
     ] + [
         K("c08", "c08_separates_en_passant_%s_%s" % (c, f), kind="bounded", bound="one concrete placement per harness: victim pawn on file %s, capturing pawns on "
-          "the neighbouring files; symbolic rights and keys" % f, tier=("quick" if f in "aeh" else "thorough"),
+          "the neighbouring files; symbolic rights and keys" % f, tier=("quick" if f in "ah" else "thorough"),
           desc="%s to move, en-passant capture AVAILABLE on file %s: with vs. without the target differ by exactly that file's key; targets on two "
           "files are separated by the two keys" % (c, f), functions=H)
         for c in ["white", "black"] for f in "abcdefgh"
@@ -690,7 +690,7 @@ PROPS["C14"] = dict(
         K("c11", "c11_reader_dashes_contract", desc="(shared with C11) the reader tail on the dash forms: no panic", functions=["<Fen as TryFromNotation<State>>::try_from_notation (after Regex::captures)"], timeout=2400),
         K("c11", "c11_reader_clock_fields_contract", desc="(shared with C11) the reader tail on three-digit clocks: no panic, exactly the spelled numbers",
           functions=["<Fen as TryFromNotation<State>>::try_from_notation (after Regex::captures)"], timeout=2400),
-        K("uci", "c14_uci_go_args_total", kind="bounded", bound="<= 3 argument tokens: keyword or 2 arbitrary ASCII bytes, value of <= 3 ASCII bytes, 1 more byte",
+        K("uci", "c14_uci_go_args_total", kind="bounded", bound="<= 3 argument tokens: keyword or 2 arbitrary ASCII bytes, value of <= 2 ASCII bytes, 1 more byte",
           desc="the argument parser of the `go` arm (block extracted verbatim from Client::exec, println! bound to a buffer): total on arbitrary tokens; "
           "`depth N` / `movetime N` with decimal N set exactly those limits", functions=["Client::exec, `go` argument parser (extracted)"], timeout=2400),
         K("uci", "c14_uci_token_total", desc="the UCI move-token reader (extracted verbatim) is total on every string of <= 8 "
